@@ -98,11 +98,15 @@ func NewHTTPResponse(statusCode int, header http.Header, encoding string, data [
 	case "":
 		resp.RawBody = data
 	default:
-		// 取默认的compress来解压
-		compressSrv := compress.Get("")
-		data, err := compressSrv.Decompress(encoding, data)
-		if err != nil {
-			return nil, err
+		// 无响应体（如HEAD请求的响应）无需解压
+		if len(data) != 0 {
+			// 取默认的compress来解压
+			compressSrv := compress.Get("")
+			rawData, err := compressSrv.Decompress(encoding, data)
+			if err != nil {
+				return nil, err
+			}
+			data = rawData
 		}
 		header.Del(elton.HeaderContentEncoding)
 		resp.RawBody = data
